@@ -9,7 +9,7 @@ void vfr_snapshot(uint8_t slot, opensmt::FastRational *x);   // remember exact v
 uint8_t vfr_same_as(uint8_t slot, opensmt::FastRational *x);
 uint8_t vfr_is_result(opensmt::FastRational *r, uint8_t op, uint8_t sa, uint8_t sb);  // op 0+ 1- 2* 3/
 uint8_t vfr_is_frac(opensmt::FastRational *r, uint64_t n, uint64_t d);
-uint32_t vfr_cmp(uint8_t sa, uint8_t sb);
+uint8_t vfr_cmp(uint8_t sa, uint8_t sb);          // 0 equal, 1 a>b, 2 a<b (exact, by cross-multiplication)
 uint8_t vfr_slot_is_integer(uint8_t s);
 uint8_t vfr_slot_is_zero(uint8_t s);
 uint8_t vfr_slot_is_neg(uint8_t s);
